@@ -207,7 +207,8 @@ Section WithHash.
 
   (* link: symlink W (only when absent).  copy: [unlink W iff W is the matching link]; create W
      exclusively; write W...  (every prefix of the object is a visible state of W).  The cache
-     is never written. *)
+     is never written.  The copy path verifies the checksum only AFTER writing, so the cuts do
+     not depend on the outcome of that check (checkout_file = Err still leaves the copy). *)
   Definition file_checkout_cuts (a : artifact) (slot : option node) (c : cache) (st : strategy)
     : list (option node) :=
     if negb (has_cs (a_cs a)) then [slot]
